@@ -39,7 +39,14 @@ TDeal ==
               /\ Len(r.polys[e]) = nd + 1
               /\ \A i \in 1..(nd + 1) : IsElem(r.polys[e][i])
               /\ r.polys[e][nd + 1] = r.secret[e]
-        /\ Injects(NonConst(r.polys, nd), r.draws)
+        \* "a separate draw from the supplied random source": when the dealer turns the stream into
+        \* field elements the way the field's own sampler does (probed by the recorder), each
+        \* coefficient must be its own one of the recorded draws; for another sampler only what no
+        \* sampler can excuse is demanded — under a cryptographic stream no coefficient repeats
+        /\ r.sampler # "mixed"
+        /\ r.sampler = "fp-random" => Injects(NonConst(r.polys, nd), r.draws)
+        /\ (r.sampler = "opaque" /\ r.strong = 1) =>
+              LET c == NonConst(r.polys, nd) IN \A i, j \in 1..Len(c) : i # j => c[i] # c[j]
         /\ deals' = Append(deals, [t |-> r.t, polys |-> r.polys])
   /\ UNCHANGED shares
 
